@@ -14,7 +14,7 @@ CLAIMED = {
  "C13": ("Root symbol table mechanism: Resolve returns a builtin symbol only for a name that is not disabled, keeps the table invariant (a cached builtin symbol exists only for names that are not disabled) and does not touch the disabled set; DisableBuiltin adds every given name to the disabled set and re-establishes the invariant (loop with quantified invariants over the maps); root and isBuiltinDisabled against the ghost root function. Propagation: disabledBuiltinsMap returns the root's set from any nested table; copyMapStringSet (the copy given to a module's table) has exactly the same names (range-loop completeness through the ghost visited set); optimCopyBuiltinStates gives the optimizer's evaluator table every name disabled for the compiler. Not decided: Resolve through nested (forked) tables, the single assignment in compileModule that installs the copy, the shadowed-names half of optimCopyBuiltinStates, the compiler's emission sites of GETBUILTIN.",
          "rootOf is a ghost function defined by axioms over parent links, assumed never reassigned"),
  "C19": ("Safety sweep (no index, slice, nil, assertion, division, make, map or stdlib-precondition panic for well-formed arguments) of 32 builtin function bodies: cap, copy, delete, len, repeat, sort, sortReverse, error, typeName, bool, int, uint, float, char, string, println, globals, isError and the is* predicates. Not covered: append, bytes, chars, contains, printf, sprintf, :makeArray, the generated argument adapters (zfuncs.go), Call.Get, and the fmt, json, strings and time modules.",
-         "arguments are non-nil Objects (undefined is the singleton); dynamic method calls on Objects of kinds outside the vocabulary return arbitrary results and do not panic; sort.Slice, strconv, fmt assumed panic-free; strings.Repeat/bytes.Repeat preconditions are obligations"),
+         "arguments are non-nil Objects (undefined is the singleton); array arguments of sort/sortReverse hold no nil element; Objects returned by calls never hold typed nil pointers; dynamic method calls on Objects of kinds outside the vocabulary return arbitrary results and do not panic; sort.Slice calls its comparison only with in-range indexes (the closure body itself is checked for arbitrary index pairs); strconv, fmt assumed panic-free; strings.Repeat/bytes.Repeat preconditions are obligations"),
  "C20": ("Scalar values cross the Go boundary unchanged: ToObject(ToInterface(o)) is o (same type and value, bit equality for floats) for int, uint, float, char, bool, string and undefined; ToInterface(ToObject(v)) is v for int64, uint64, float64, rune, bool, string and nil; int, uint, uintptr, byte and float32 convert to the uGO value with the same numeric value; lemmas over the real ToObject/ToInterface bodies. ToObject and ToObjectAlt return a value or an error, never both or neither, and a converted []any / map[string]any has no nil element (a nested unsupported value is reported, not dropped); ToObject, ToObjectAlt and ToInterface are panic-free (nested values through the functions' own contracts). Not decided: round trips of bytes, arrays and maps (need inductive lemmas over nesting), ToObjectAlt value clauses, the numeric helper conversions, error for unsupported types.",
          "registry converters trusted (assumed non-nil and panic-free); sync locks no-ops"),
  "C02": ("Only the call-argument binding clause of the statement: entering a compiled function binds fixed parameters to the arguments in order, packs the remaining arguments of a variadic function into an array and leaves every other local undefined - proved for calls from Go (VM.initLocals) and for in-script calls without spread (VM.xOpCallCompiled, flags == 0) against the same clauses, including the frame re-use of a self-recursive tail call (after which the stack pointer is back below the callee slot and the abandoned slots are nil); the packed variadic array shares no storage with the caller's arguments or the stack. Everything else in the statement (evaluation order, scoping, closures, compound assignment, loops, spread calls, destructuring) is not covered; The tail-call clause is stated on the same function: a frame is re-used only when the instruction after the call is RETURN; the CALL; POP; RETURN shape (the discarded self-call returns the callee's value where ordinary recursion returns undefined) fails that clause and is the one open known finding (KNOWN-FINDING line, see known_findings.json: the repair conflicts with an existing test).",
